@@ -639,6 +639,7 @@ func (fr *Frame) execGo(st *State, x *ssa.Go) {
 		}
 	}
 	fr.callHooks(st, "go", gargs, x.Pos()) // "oncall go:" / "callsite go:" hooks count and constrain spawns
+	fr.spawnPre(st, x, gargs)
 	name := "?"
 	if fn := x.Call.StaticCallee(); fn != nil {
 		name = fn.Name()
@@ -918,4 +919,56 @@ func mayAlias(a, b types.Type) bool {
 		return ea != nil && eb != nil && types.Identical(ea.Underlying(), eb.Underlying())
 	}
 	return types.Identical(ua, ub)
+}
+
+// spawnPre: the preconditions of a goroutine body that is verified under its own contract are proof
+// obligations where it is spawned (captured variables and arguments have their values of that moment).
+func (fr *Frame) spawnPre(st *State, x *ssa.Go, gargs []Val) {
+	if fr.parent != nil || x.Call.IsInvoke() {
+		return
+	}
+	var fn *ssa.Function
+	var binds []Val
+	if fv := fr.val(st, x.Call.Value); fv.K == KClosure {
+		fn, binds = fv.Fn, fv.Binds
+	} else if f := x.Call.StaticCallee(); f != nil {
+		fn = f
+	}
+	if fn == nil {
+		return
+	}
+	fc := fr.en.CS.Funcs[FuncKey(fn)]
+	if fc == nil || len(fc.Requires) == 0 {
+		return
+	}
+	sc := &Scope{fr: fr, st: st, vars: map[string]Val{}, entry: map[string]Val{}, pkg: fr.pkg}
+	for i, fv := range fn.FreeVars {
+		if i >= len(binds) {
+			break
+		}
+		b := binds[i]
+		if b.K == KCellPtr {
+			if cv, ok := st.cells[b.Cell]; ok {
+				sc.vars[fv.Name()] = cv
+			}
+		} else if b.K == KNormal {
+			// captured struct/array local: its reference
+			nv := b
+			nv.Nav = true
+			sc.vars[fv.Name()] = nv
+		}
+	}
+	for i, p := range fn.Params {
+		if i < len(gargs) {
+			name := p.Name()
+			if !fc.IsClosure && i < len(fc.Params) {
+				name = fc.Params[i]
+			}
+			sc.vars[name] = gargs[i]
+		}
+	}
+	for i, r := range fc.Requires {
+		g := fr.evalBool(sc, r.E)
+		fr.oblige(st, "spawn-pre", shortKey(fc.Key)+"."+clauseName(r, i), g, r, x.Pos())
+	}
 }
